@@ -462,9 +462,12 @@ class Report:
     this property (`why` states the dependency).  They are evaluated on the
     same tree by the other checker's code and reported here under the name
     <dep>.<rule>; findings listed for the other property stay listed."""
+    if getattr(self, 'importing', False):
+      return        # a checker run only to import its own rules imports nothing
     import importlib
     mod = importlib.import_module('sa.props.%s' % dep)
     sub = Report(dep, self.tier, self.model)
+    sub.importing = True
     mod.check(self.model, sub, self.tier)
     if rules is None:   # every rule of the other checker's own (no field-type lint)
       rules = [r for r in sub.rules if '.' not in r and not r.endswith('ASDL')]
